@@ -1,6 +1,7 @@
 /- Driver command: assembling a file tree. -/
 import EtkVerif.Driver.AsmCmd
 import EtkVerif.Asm.Ingest
+import EtkVerif.Asm.IngestTraced
 namespace EtkVerif.Driver
 open EtkVerif Asm
 
@@ -64,6 +65,26 @@ def cmdAsmFs (args : List String) : String :=
       match ingestFile t.toFS ⟨true, []⟩ (fun k => k) (asmFuelFor total) topPath with
       | .ok (bytes, _) => s!"ok {hx bytes}"
       | .error e => showIngErr e
+    | _, _ => "bad-op"
+  | _ => "bad-op"
+
+/-- `asmfsr <hex top path> <entries>`: as `asmfs`, run with the TRACED ingestion (`Traced.ingestFileT`, the functions the
+`C18_all_runs_*` theorems are about); the reply also lists the canonical locations of the files the run read —
+successful or not — other than the top-level source, for comparison with the reads observed on the real code -/
+def cmdAsmFsR (args : List String) : String :=
+  match args with
+  | top :: rest =>
+    match unhex top, parseEntries (rest.headD "") with
+    | some tb, some tree =>
+      let t := withParents tree
+      let topPath := PathC.ofString ("/" ++ strOfBytes tb)
+      let total := t.foldl (fun acc (_, e) => match e with | .file c => acc + c.length | _ => acc) 0
+      let (res, tr) := Traced.ingestFileT t.toFS ⟨true, []⟩ (fun k => k) (asmFuelFor total) topPath
+      let reads := (readsOf tr).map (fun loc => "/".intercalate loc)
+      let body := match res with
+        | .ok bytes => s!"ok {hx bytes}"
+        | .error e => showIngErr e
+      body ++ " reads=" ++ (if reads.isEmpty then "-" else "|".intercalate reads)
     | _, _ => "bad-op"
   | _ => "bad-op"
 
